@@ -444,6 +444,8 @@ class BucketClose(Spec):
 
 
 def extra_checks(rep, tier):
+    from contracts import grid_upload
+    grid_upload.grid_check(rep, tier, "C06")
     # the happiness value the decision uses is the real servers_of_happiness: its bounded run-time contract (C08) is re-run here
     from contracts import C08
     n0 = len(rep.violations)
